@@ -890,7 +890,10 @@ class QvmCpu:
                       expected=a.type,
                       got=b.type)
 
-        result = a.value // b.value
+        # QBASIC integer division truncates toward zero
+        result = abs(a.value) // abs(b.value)
+        if (a.value < 0) != (b.value < 0):
+            result = -result
         self.push(a.type, result)
 
     def _exec_ijmp(self):
@@ -1057,7 +1060,10 @@ class QvmCpu:
                       expected=a.type,
                       got=b.type)
 
-        result = a.value % b.value
+        # the remainder takes the sign of the dividend, as in QBASIC
+        result = abs(a.value) % abs(b.value)
+        if a.value < 0:
+            result = -result
         self.push(a.type, result)
 
     def _exec_mul(self):
